@@ -345,7 +345,7 @@ V("C18.canary", ["C18"], "merge_canary", "second_pass_merge", "Merge::second_pas
   "deliberately false (engine canary)", "merge.rs", canary=True)
 
 B("C18.fragments_to_node_switches", ["C18", "C02"], CB, "bounded_fragments_to_node_switches", "CellBuffer::fragments_to_node (real style / defs / FragmentTree)",
-  "root = svg[xmlns, width=w, height=h, class=svgbob] (exactly 4 attributes); children = [style]? [defs]? [rect.backdrop 0,0,w,h]? ++ fragment nodes; "
+  "root = svg[xmlns, width=w, height=h, class=svgbob]; children = [style]? [defs]? [rect.backdrop 0,0,w,h]? ++ fragment nodes; "
   "geometry identical whatever the switches",
   "8 switch combinations x 4 canvas sizes x 0..2 line fragments (sauron Node construction exceeds Kani: > 25 min even for concrete inputs)")
 B("sink.style_text", ["C02", "C08"], CB, "bounded_style_sink", "CellBuffer::style",
@@ -441,7 +441,7 @@ B("RN.renderers", ["C11", "C05", "C14", "C02"], FRAG, "bounded_renderers", "From
   "numeric attributes are exactly the fields (x1,y1,x2,y2 / cx,cy,r / x,y,width,height,rx / path d / points); classes follow the flags and markers",
   "5^3 coordinate triples x 2 flag values, 7 shapes each (sauron Node construction is beyond Kani)")
 B("sink.text_node", ["C02", "C08", "C04", "C15"], FRAG, "bounded_text_node", "From<Text> for Node / From<CellText> for Node / escape_html_text",
-  "a text element has exactly x, y and one text child = concatenation of replace_html_char over the characters",
+  "a text element has x, y and exactly one text child = concatenation of replace_html_char over the characters",
   "all strings of length 1..3 over {<,&,>,\",',a,e-acute,wide CJK,NUL,U+0001,space} (1463 strings)")
 
 # ------------------------------------------------------------------------------------------------
